@@ -67,7 +67,9 @@ def _classify(exc):
     if isinstance(exc, canopen.SdoAbortedError):
         code = exc.code
         return {"e": "raise", "cls": "abort",
-                "code": B(struct.pack("<L", code & 0xFFFFFFFF)) if isinstance(code, int) else []}
+                # exactly the received unsigned 32-bit number (anything else is logged as <<-1>>)
+                "code": (B(struct.pack("<L", code)) if isinstance(code, int) and not isinstance(code, bool)
+                         and 0 <= code <= 0xFFFFFFFF else [-1])}
     if isinstance(exc, canopen.SdoCommunicationError):
         return {"e": "raise", "cls": "comm", "code": []}
     return {"e": "raise", "cls": "other", "code": [], "repr": f"{type(exc).__name__}: {exc}"[:200]}
